@@ -1691,16 +1691,18 @@ pub fn decode(text: &str) -> Decoded {
             }
         }
     }
-    out.verdict = if p.del_in_comment {
-        Verdict::Undecided(U1::A)
-    } else if bom {
-        Verdict::Undecided(U1::C)
-    } else if p.limit_int {
+    // neither class is judged for validity; a limit takes precedence so that "U1" always means
+    // "valid apart from the undecided point" and comes with a tree
+    out.verdict = if p.limit_int {
         Verdict::Limit(LimitKind::Int)
     } else if p.limit_float {
         Verdict::Limit(LimitKind::Float)
     } else if nest >= NEST_LIMIT {
         Verdict::Limit(LimitKind::Depth)
+    } else if p.del_in_comment {
+        Verdict::Undecided(U1::A)
+    } else if bom {
+        Verdict::Undecided(U1::C)
     } else {
         Verdict::Valid
     };
